@@ -162,6 +162,12 @@ func (db *proverDB) postsOf(fn *ssa.Function) []post {
 					cands = append(cands, post{kind: "lenres==res", i: i, g: g})
 				}
 			}
+			// ... or an integer parameter (chunkPayload(buf, size) returns buf[8 : 8+size])
+			for j, par := range fn.Params {
+				if isIntLike(par.Type()) {
+					cands = append(cands, post{kind: "lenres==param", i: i, j: j})
+				}
+			}
 			for _, k := range ks {
 				if k > 0 {
 					cands = append(cands, post{kind: "lenres>=k", i: i, k: k})
@@ -267,6 +273,9 @@ func (p *prover) postGoalAtReturn(c post, ret *ssa.Return, facts *[]cons) ([]lin
 	case "lenres==res":
 		a, b := p.lenLin(ret.Results[c.i], facts), p.toLin(ret.Results[c.g], facts)
 		return []lin{ge(a, b).e, ge(b, a).e}, true
+	case "lenres==param":
+		a, b := p.lenLin(ret.Results[c.i], facts), p.toLin(fn.Params[c.j], facts)
+		return []lin{ge(a, b).e, ge(b, a).e}, true
 	case "lenresfld==resfld":
 		fv, gv := retField(ret.Results[c.i], c.f), retField(ret.Results[c.i], c.g)
 		if fv == nil || gv == nil {
@@ -357,6 +366,14 @@ func (p *prover) callFacts(call *ssa.Call, facts *[]cons, success bool) {
 			} else if c.j < len(args) {
 				*facts = append(*facts, ge(p.lenLin(args[c.j], facts), at))
 			}
+		case "lenres==param":
+			rv := resultValue(call, c.i)
+			if rv == nil || c.j >= len(args) {
+				continue
+			}
+			a := atomLin(atom{v: p.rep(rv), isLen: true})
+			b := p.toLin(args[c.j], facts)
+			*facts = append(*facts, ge(a, b), ge(b, a), cons{a.clone()})
 		case "lenres==res":
 			rv, gv := resultValue(call, c.i), resultValue(call, c.g)
 			if rv == nil || gv == nil {
